@@ -4,7 +4,8 @@
 export GOFLAGS=-mod=mod GOPROXY=off GOSUMDB=off GOTOOLCHAIN=local
 WT=$1; KIND=$2; shift 2
 cd $WT || exit 9
-git diff --quiet -- . ':!zz_seed' && { echo "NO CHANGE APPLIED"; git apply zz_seed/patch.diff || exit 9; }
+# start from the recorded patch only (seeders share one stash ref; a worktree may carry a foreign edit)
+git checkout -q -- . && git apply zz_seed/patch.diff || { echo "patch.diff does not apply to HEAD"; exit 9; }
 mkdir -p /tmp/zzseed.$$ && [ -f zz_seed/demo/main.go ] && mv zz_seed/demo/main.go /tmp/zzseed.$$/main.go
 PKGS=./...
 go build ./... || { echo "BUILD FAILED"; exit 1; }
